@@ -417,8 +417,7 @@ class XBNWriter(object):
         """
         distributions = etree.SubElement(self.bnmodel, "DISTRIBUTIONS")
 
-        cpds = self.model.get_cpds()
-        cpds.sort(key=lambda x: x.variable)
+        cpds = sorted(self.model.get_cpds(), key=lambda x: x.variable)
         for cpd in cpds:
             cpd_values = cpd.get_values().transpose()
             var = cpd.variable
